@@ -9,8 +9,13 @@ Monitors (all harness side, nothing in /repo is touched):
   * ``table``      the finished interpolation table ``_interpolationPoints/_Values`` and the
                    ``[T, flag]`` pairs min/maxPossibleTemperature left behind by the trace;
   * ``minimiser``  a recording wrapper installed on ``effectivePotential.findLocalMinimum``
-                   for the duration of the trace: (guess, T, result) of every call, which is
-                   what attributes a branch hop to the re-minimisation step;
+                   for the duration of the trace: (guess, T, result, tol) of every call, which
+                   is what attributes a branch hop to the re-minimisation step and an
+                   off-minimum table to scipy's absolute gradient tolerance;
+  * ``ode``        scipy.integrate.RK45 (resolved by WallGo.freeEnergy at call time) is
+                   swapped for a logging subclass during the trace: every step of the upward
+                   and of the downward integration, so that "every accepted step is a row"
+                   can be decided even when tracePhase ends in an assertion;
   * ``interp``     the real ``FreeEnergy.__call__`` at 200 random temperatures inside the
                    advertised range;
   * ``tc``         the value returned by the real ``findCriticalTemperature``.
@@ -19,6 +24,21 @@ Oracles: closed forms only (wgverif.oracles.c11_branches + models.potentials); t
 spline *model* term of the interpolation tolerance is the error of scipy's CubicSpline on
 the exact closed-form values at the very same knots (the documented "spline error" of the
 table the user asked for, DESIGN 2.3-3), never the table itself.
+
+Ends of an existence interval come in two kinds (c11_branches.end_types).  *Hard* ends
+(fold of the poly1 broken phase at T1; sub-critical transverse instability of a poly2
+phase): the continuous family of minima stops -- these carry the property's "stops before
+and flags" clause.  *Soft* ends (vev -> 0 continuously into a symmetric minimum; the
+transcritical exchange of the poly1 symmetric phase with phi_-(T) at T0): a minimum
+continues continuously on another closed form, so neither stopping with the flag nor
+tracing through is called a violation; rows are judged against the continued branch.
+
+Deviations from DESIGN C11, each forced by what the unchanged tree showed:
+  * the T slack K*rTol*T is kept for folds but has a floor rTol >= 1e-6, is scaled by
+    (T0/T_end)^3 (tolerances in tracePhase are relative to the *starting* temperature) and
+    uses the exponent 2/3 resp. 1/2 for sub-critical resp. soft ends (imperfect
+    bifurcation); see judge_table;
+  * the interpolated free energy is compared with tolerance K*rTol*|V| + 2*(spline model).
 """
 from __future__ import annotations
 
@@ -48,8 +68,10 @@ ASSUMPTIONS = [
     "WallGoManager.initTemperatureRange)",
     "phaseTracerFirstStep is passed as scipy takes it (an absolute temperature step); the "
     "docstring's 'in units of dT' reading is not exercised",
-    "requested ranges whose end lies within the slack K*rTol*T of a spinodal are run but "
-    "the presence/absence of the flag is not judged there",
+    "requested ranges whose end lies within the slack of a spinodal (judge_table) are run "
+    "but the presence/absence of the flag is not judged there; the same holds for every "
+    "request that reaches a soft end",
+    "poly2 draws are restricted to sub-critical transverse instabilities (lh*ls < lhs^2/4)",
 ]
 CASE_TIMEOUT = 300
 CHUNK = 2
@@ -102,7 +124,7 @@ def _rand_poly1(rng):
         E = float(rng.uniform(0.03, 0.12))
         D = float(rng.uniform(0.2, 0.9))
         if 8 * lam * D - 9 * E * E <= 0.25 * 8 * lam * D or lam * D - E * E <= 0:
-            continue          # keep T1/T0 - 1 below ~15 %
+            continue          # keep T1/T0 below 2 and T_c finite
         return {"family": "poly1", "a": g * math.pi ** 2 / 90, "D": D, "E": E, "lam": lam,
                 "T0": 1.0}
     raise RuntimeError("poly1 draw failed")
@@ -189,6 +211,10 @@ def generate(tier, seed):
             "paranoid": bool(rng.random() < 0.5),
             "tn": float(rng.uniform(0.15, 0.85)),
             "cover": [float(rng.uniform(0.3, 0.9)), float(rng.uniform(0.3, 0.9))],
+            # the second phase is traced over a sub-range (fractions of the first one's
+            # distance from T_c), so that the coexistence range is a genuine intersection
+            "cover2": [float(rng.uniform(0.45, 1.0)), float(rng.uniform(0.45, 1.0))],
+            "narrow": "low" if rng.random() < 0.5 else "high",
             "tscale": float(rng.choice([0.3, 1.0, 3.0])),
             "fscale": float(rng.choice([0.1, 0.3, 1.0])),
             "s": int(rng.integers(1 << 30)),
@@ -594,6 +620,11 @@ def judge_table(pot, phase, fe, req, rec, obs, viol, mon):
                      "data": {**data0, "row": int(k), "phi": phi[k].tolist(),
                               "branch": bq[k].tolist()}})
 
+    # ---- evidence only: the tracer's own dimensionless gradient measure on the rows
+    gr = np.linalg.norm(np.asarray(pot.grad_phys(pot.to_phys(Y[:, :n]), X)), axis=-1) / req["T0"] ** 3
+    if strictly_in.any():
+        res["row_grad_over_T0cubed_over_rTol_max"] = float(np.max(gr[strictly_in]) / rTol)
+
     # ---- analytic Hessian positive definite on every row strictly inside the interval
     # (tolerance: rounding bound of WallGo's own finite-difference Hessian, which is what
     # its spinodal test sees; truncation vanishes for a quartic polynomial)
@@ -848,6 +879,8 @@ def _case_trace(case):
         return {"key": key, "cls": cls + ["refused:other"], "nontrivial": True, "obs": obs,
                 "viol": viol, "mon": mon}
     except Exception as exc:
+        if type(exc).__name__ == "CaseTimeout":
+            raise                          # watchdog: the runner turns it into inconclusive
         singular = isinstance(exc, np.linalg.LinAlgError)
         viol.append({"mech": ("trace-raises-singular-hessian-near-spinodal" if singular
                               else "trace-raises"),
@@ -894,9 +927,14 @@ def _case_tc(case):
     TMin = Tc - case["cover"][0] * span_lo
     TMax = Tc + case["cover"][1] * span_hi
     # Tc must lie inside the advertised range [TMin+2dT, TMax-2dT] with >= 2 dT to spare
-    dT = min(case["dT_frac"] * (TMax - TMin), (TMax - Tc) / 4.5, (Tc - TMin) / 4.5)
-    Tn = TMin + (0.1 + 0.8 * case["tn"]) * (TMax - TMin)
-    obs = {"Tc_exact": Tc, "coexistence": [lo, hi], "traced": [TMin, TMax], "dT": dT,
+    c2 = case.get("cover2", [1.0, 1.0])
+    TMin2 = Tc - c2[0] * (Tc - TMin)
+    TMax2 = Tc + c2[1] * (TMax - Tc)
+    dT = min(case["dT_frac"] * (TMax - TMin), (TMax2 - Tc) / 4.5, (Tc - TMin2) / 4.5)
+    Tn = TMin2 + (0.1 + 0.8 * case["tn"]) * (TMax2 - TMin2)
+    ranges = {"low": (TMin, TMax), "high": (TMin, TMax)}
+    ranges[case.get("narrow", "low")] = (TMin2, TMax2)
+    obs = {"Tc_exact": Tc, "coexistence": [lo, hi], "traced": ranges, "dT": dT,
            "rTol": rTol, "Tn": Tn, "model": dict(case["spec"])}
     pL = Fields(pot.to_code(B.branch(pot, "low", np.asarray(Tn))))
     pH = Fields(pot.to_code(B.branch(pot, "high", np.asarray(Tn))))
@@ -908,14 +946,17 @@ def _case_tc(case):
             rec = MinimiserRecorder(pot)
             rec.install()
             try:
-                fe.tracePhase(TMin, TMax, dT, rTol=rTol, paranoid=case["paranoid"])
+                fe.tracePhase(ranges[name][0], ranges[name][1], dT, rTol=rTol,
+                              paranoid=case["paranoid"])
             finally:
                 rec.remove()
             recs[name] = rec
         tc = th.findCriticalTemperature(dT=dT, rTol=rTol, paranoid=case["paranoid"])
     except Exception as exc:
+        if type(exc).__name__ == "CaseTimeout":
+            raise
         viol.append({"mech": "critical-temperature-raises",
-                     "msg": f"tracing [{TMin},{TMax}] (coexistence [{lo},{hi}], Tc={Tc}) or "
+                     "msg": f"tracing {ranges} (coexistence [{lo},{hi}], Tc={Tc}) or "
                      f"findCriticalTemperature raised {exc!r}", "data": obs})
         return {"key": key, "cls": ["tc:raised"], "nontrivial": True, "obs": obs, "viol": viol,
                 "mon": mon}
@@ -923,8 +964,8 @@ def _case_tc(case):
     sub = {}
     for name, fe in (("high", th.freeEnergyHigh), ("low", th.freeEnergyLow)):
         o = {}
-        req = {"T0": Tn, "TMin": TMin, "TMax": TMax, "dT": dT, "rTol": rTol,
-               "paranoid": case["paranoid"], "seed": case["s"]}
+        req = {"T0": Tn, "TMin": ranges[name][0], "TMax": ranges[name][1], "dT": dT,
+               "rTol": rTol, "paranoid": case["paranoid"], "seed": case["s"]}
         sub[name] = judge_table(pot, name, fe, req, recs[name], o, viol, mon)
     obs["tables"] = sub
     obs["Tc"] = tc
